@@ -73,7 +73,8 @@ static void hexarg(char *dst, const uint8_t *p, size_t n) { for (size_t i = 0; i
 static void check_dump(tcase *c, int fd) {
 	char path[64]; snprintf(path, sizeof path, "/proc/%d/fd/%d", (int) getpid(), fd);
 	/* filter variants: none(-x), none(default), -k prefixes of first key, -v prefixes of first value, -K/-V 1,2,128 */
-	struct { int hex; const uint8_t *kp; size_t kpl; const uint8_t *vp; size_t vpl; size_t K, V; } var[40]; int nv = 0;
+	struct { int hex; const uint8_t *kp; size_t kpl; const uint8_t *vp; size_t vpl; size_t K, V; int minfirst; } var[64]; int nv = 0;
+	static uint8_t xk[4][700], xv[2][700];
 	memset(var, 0, sizeof var);
 	var[nv++].hex = 1; var[nv++].hex = 0;
 	/* choose a reference entry: the middle one */
@@ -87,14 +88,33 @@ static void check_dump(tcase *c, int fd) {
 	static const size_t mins[] = { 1, 2, 128 };
 	for (int i = 0; i < 3; i++) { var[nv].hex = 1; var[nv].K = mins[i]; nv++; var[nv].hex = 1; var[nv].V = mins[i]; nv++; }
 	var[nv].hex = 1; var[nv].K = 1; var[nv].V = 2; nv++;
+	/* prefix and minimum-length options together, in both orders on the command line, with the minimum below, at and above the prefix length;
+	 * and prefixes that are LONGER than a stored key or value: the key followed by the tail of the previous (longer) key - what a reused key
+	 * buffer still holds - or by a 00 byte, the value followed by 00 (the byte that follows it inside the block). (seed R6-C01) */
+	if (c->n) {
+		const tkv *m = &c->e[c->n / 2];
+		if (m->kl >= 1 && m->kl < 600) for (int o = 0; o < 2; o++) for (int d = -1; d <= 1; d++) { if ((long) m->kl + d < 1 || nv >= 60) continue; var[nv].hex = 1; var[nv].kp = m->k; var[nv].kpl = m->kl; var[nv].K = m->kl + d; var[nv].minfirst = o; nv++; }
+		int nx = 0;
+		for (size_t i = 0; i < c->n && nx < 4 && nv < 60; i++) {
+			const tkv *e = &c->e[i]; if (e->kl >= 600) continue;
+			size_t pl = 0; uint8_t *P = xk[nx];
+			if (i && c->e[i - 1].kl > e->kl && c->e[i - 1].kl < 600) { memcpy(P, e->k, e->kl); memcpy(P + e->kl, c->e[i - 1].k + e->kl, c->e[i - 1].kl - e->kl); pl = c->e[i - 1].kl; }
+			else if (i == c->n / 2) { memcpy(P, e->k, e->kl); P[e->kl] = 0; pl = e->kl + 1; }
+			if (!pl) continue;
+			nx++;
+			for (int o = 0; o < 2 && nv < 60; o++) { var[nv].hex = 1; var[nv].kp = P; var[nv].kpl = pl; var[nv].K = e->kl ? e->kl : 0; var[nv].minfirst = o; if (!var[nv].K && o) continue; nv++; }
+		}
+		if (m->vl < 600 && nv < 60) { memcpy(xv[0], m->v, m->vl); xv[0][m->vl] = 0; for (int o = 0; o < 2 && nv < 60; o++) { if (!m->vl && o) continue; var[nv].hex = 1; var[nv].vp = xv[0]; var[nv].vpl = m->vl + 1; var[nv].V = m->vl; var[nv].minfirst = o; nv++; } }
+	}
 	for (int vi = 0; vi < nv; vi++) {
 		char *argv[16]; int a = 0; char kb[1300], vb[1300], Kb[24], Vb[24];
 		argv[a++] = "mtbl_dump";
 		if (var[vi].hex) argv[a++] = "-x";
+		if (var[vi].minfirst) { if (var[vi].K) { sprintf(Kb, "%zu", var[vi].K); argv[a++] = "-K"; argv[a++] = Kb; } if (var[vi].V) { sprintf(Vb, "%zu", var[vi].V); argv[a++] = "-V"; argv[a++] = Vb; } }
 		if (var[vi].kp) { hexarg(kb, var[vi].kp, var[vi].kpl); argv[a++] = "-k"; argv[a++] = kb; }
 		if (var[vi].vp) { hexarg(vb, var[vi].vp, var[vi].vpl); argv[a++] = "-v"; argv[a++] = vb; }
-		if (var[vi].K) { sprintf(Kb, "%zu", var[vi].K); argv[a++] = "-K"; argv[a++] = Kb; }
-		if (var[vi].V) { sprintf(Vb, "%zu", var[vi].V); argv[a++] = "-V"; argv[a++] = Vb; }
+		if (!var[vi].minfirst && var[vi].K) { sprintf(Kb, "%zu", var[vi].K); argv[a++] = "-K"; argv[a++] = Kb; }
+		if (!var[vi].minfirst && var[vi].V) { sprintf(Vb, "%zu", var[vi].V); argv[a++] = "-V"; argv[a++] = Vb; }
 		argv[a++] = path; argv[a] = NULL;
 		uint8_t *out; size_t outlen;
 		int rc = run_tool("VERIF_TOOL_MTBL_DUMP", argv, &out, &outlen, fd);
@@ -115,7 +135,7 @@ static void check_dump(tcase *c, int fd) {
 			size_t ln = 0, le = 0; for (size_t q = 0; q < outlen; q++) ln += out[q] == '\n'; for (size_t q = 0; q < exp.n; q++) le += exp.p[q] == '\n';
 			if (ln != le) vh_violation("dump", "mtbl_dump (default format) prints %zu lines for %zu entries", ln, le);
 		}
-		else if (outlen != exp.n || memcmp(out, exp.p, outlen)) vh_violation("dump", "mtbl_dump output (variant %d: hex=%d kprefix=%zu vprefix=%zu K=%zu V=%zu) is %zu bytes, expected %zu bytes (first difference at %zu)", vi, var[vi].hex, var[vi].kpl, var[vi].vpl, var[vi].K, var[vi].V, outlen, exp.n, ({ size_t d = 0; while (d < outlen && d < exp.n && out[d] == exp.p[d]) d++; d; }));
+		else if (outlen != exp.n || memcmp(out, exp.p, outlen)) vh_violation("dump", "mtbl_dump output (variant %d: hex=%d kprefix=%zu vprefix=%zu K=%zu V=%zu%s) is %zu bytes, expected %zu bytes (first difference at %zu)", vi, var[vi].hex, var[vi].kpl, var[vi].vpl, var[vi].K, var[vi].V, var[vi].minfirst ? " minimum options first" : "", outlen, exp.n, ({ size_t d = 0; while (d < outlen && d < exp.n && out[d] == exp.p[d]) d++; d; }));
 		free(out); free(exp.p);
 		VH_COUNT("tool_runs", 1); VH_COUNT("transitions", 1);
 	}
@@ -535,6 +555,15 @@ int main(int argc, char **argv) {
 			if (!vh_mine(idx++)) continue;
 			tcfg cfg = { 0 }; cfg.comp = comps[ci]; cfg.uselevel = true; cfg.level = LV[li]; cfg.block_size = 1024; cfg.restart = ri ? 2 : 16;
 			gen_level(&c, &cfg); run_case(&c); tcase_free(&c);
+		}
+		/* option magnitudes: block sizes below the minimum (clamped to 1024), just above it, and at and beyond every 32-bit boundary - the
+		 * trailer field and the accessors are 64-bit (seed R6-C10: one side of the trailer codec narrowed to 32 bits) */
+		static const size_t OB[] = { 1, 1023, 1025, 65536, 0x7fffffffUL, 0x80000000UL, 0xffffffffUL, 0x100000000UL, 0x100000001UL, (1UL << 40) + 5, 1UL << 63, ~0UL };
+		static const size_t OR[] = { 1, 16, 1000 };
+		for (int ci = 0; ci < 6; ci++) for (unsigned bi = 0; bi < sizeof OB / sizeof *OB; bi++) for (unsigned ri = 0; ri < 3; ri++) for (int pf = 0; pf < 2; pf++) {
+			if (!vh_mine(idx++)) continue;
+			tcfg cfg = { 0 }; cfg.comp = comps[ci]; cfg.block_size = OB[bi]; cfg.restart = OR[ri]; cfg.prefix = pf ? 13 : 0;
+			gen_level(&c, &cfg); c.tool = (ci == 0 && ri == 0); run_case(&c); tcase_free(&c);
 		}
 	} else if (!strcmp(mode, "sep16")) {
 		nU16 = u16_gen(U16);
